@@ -3,45 +3,9 @@
    pinned down with the exact semantics of MatchExact.v: completeness shows that the invocation is found, soundness plus the
    inversion of the derivation that the match is the whole invocation with the name in group 1. *)
 From Rimu Require Import Base Unicode Regex RegexSem RegexAnalysis RegexParse Str Types Tables Guards State Inline
-  MatchLemmas MatchExact FilterLemmas Plain.
+  MatchLemmas MatchExact ScanLemmas Plain.
 From Coq Require Import Lia.
 Local Open Scope monad_scope.
-
-(* ---- scanning a text with exactly one match ---- *)
-Lemma search_from_skip r : nullable (re_ast r) = false -> forall pre i p rest,
-  (forall x, In x pre -> first (re_ast r) x = false) ->
-  search_from r i p (pre ++ rest) = search_from r (i + lenN pre) (last_of p pre) rest.
-Proof.
-  intros Hn. induction pre as [|x pre IH]; intros i p rest Hf.
-  - cbn [app lenN last_of]. rewrite N.add_0_r. reflexivity.
-  - cbn [app search_from]. unfold match_at at 1. destruct (exec _ _ _ _ _ _) eqn:E.
-    + apply exec_nonnull_first in E as (y & s' & Hy & Hfy); auto. inversion Hy; subst.
-      rewrite Hf in Hfy by (left; reflexivity). discriminate.
-    + cbn [option_map]. rewrite IH by (intros y Hy; apply Hf; right; exact Hy).
-      cbn [lenN last_of]. f_equal. lia.
-Qed.
-
-Lemma units_cons (s : str) : s <> [] -> exists u, units s = tt :: u.
-Proof. destruct s; [congruence|]. intros _. cbn. eauto. Qed.
-
-Lemma re_scan_one r pre w post m : nullable (re_ast r) = false ->
-  (forall x, In x pre -> first (re_ast r) x = false) -> (forall x, In x post -> first (re_ast r) x = false) ->
-  match_at r (lenN pre) (last_of None pre) (w ++ post) = Some m ->
-  m_start m = lenN pre -> m_end m = lenN pre + lenN w -> w <> [] ->
-  re_scan r (pre ++ w ++ post) = ([(pre, m)], post).
-Proof.
-  intros Hn Hpre Hpost Hm Hst Hen Hw. unfold re_scan.
-  destruct (units_cons (pre ++ w ++ post)) as (u & Hu). { destruct pre; [destruct w; [congruence|discriminate]|discriminate]. }
-  rewrite Hu. cbn [scan_loop]. rewrite (search_from_skip r Hn pre 0 None (w ++ post) Hpre). rewrite N.add_0_l.
-  assert (Hs : search_from r (lenN pre) (last_of None pre) (w ++ post) = Some m).
-  { destruct (w ++ post); cbn [search_from]; rewrite Hm; reflexivity. }
-  rewrite Hs. rewrite Hst, Hen, !N.sub_0_r.
-  assert (Hlw : 0 < lenN w) by (destruct w; [congruence|simpl; lia]).
-  replace (lenN pre + lenN w =? lenN pre) with false by (symmetry; apply N.eqb_neq; lia).
-  rewrite takeN_app_exact. rewrite dropN_app_plus.
-  replace (dropN (lenN w) (w ++ post)) with post by (symmetry; apply dropN_app_exact).
-  rewrite (search_from_none r Hn post _ _ Hpost). reflexivity.
-Qed.
 
 (* ---- the simple-invocation pattern on an invocation ---- *)
 Definition name_set : list citem :=
@@ -56,40 +20,6 @@ Lemma simple_shape : re_ast re_macros_render_1 =
 Proof. repeat split; reflexivity. Qed.
 
 Definition name_ok (name : str) : Prop := name <> [] /\ forall x, In x name -> set_match false name_set x = true.
-
-Lemma iter_set_run items : forall n s s', iterR (mx (RSet false items)) n s s' ->
-  exists u, st_rest s = u ++ st_rest s' /\ (forall x, In x u -> set_match false items x = true) /\
-            st_c s' = st_c s /\ st_i s' = st_i s + lenN u /\ st_p s' = last_of (st_p s) u /\ length u = n.
-Proof.
-  induction n as [|n IH]; intros s s' H; cbn [iterR] in H.
-  - subst s'. exists []. cbn. rewrite N.add_0_r. repeat split; auto; try (intros x []; fail).
-  - destruct H as (s1 & (x & t & Hr & Hx & ->) & H2). apply IH in H2 as (u & Eu & Hu & Hc & Hi & Hp & Hl). cbn in *.
-    exists (x :: u). rewrite Hr, Eu. cbn. repeat split; auto; try (intros y [<-|Hy]; auto; fail); try (rewrite Hi; lia); try congruence.
-Qed.
-
-Lemma run_unique (P : char -> bool) stop : P stop = false -> forall name u post rest',
-  (forall x, In x name -> P x = true) -> (forall x, In x u -> P x = true) ->
-  name ++ stop :: post = u ++ stop :: rest' -> u = name /\ rest' = post.
-Proof.
-  intros Hs. induction name as [|a name IH]; intros u post rest' Hn Hu E.
-  - destruct u as [|b u]; [cbn in E; inversion E; auto|]. cbn in E. inversion E; subst b.
-    rewrite Hu in Hs by (left; reflexivity). discriminate.
-  - destruct u as [|b u].
-    + cbn in E. inversion E; subst a. rewrite Hn in Hs by (left; reflexivity). discriminate.
-    + cbn in E. inversion E; subst b. destruct (IH u post rest') as [-> ->]; auto.
-      * intros x Hx. apply Hn. right. exact Hx.
-      * intros x Hx. apply Hu. right. exact Hx.
-Qed.
-
-Lemma iter_set_intro items : forall u i p z c, (forall x, In x u -> set_match false items x = true) ->
-  iterR (mx (RSet false items)) (length u) (mkSt i p (u ++ z) c) (mkSt (i + lenN u) (last_of p u) z c).
-Proof.
-  induction u as [|x u IH]; intros i p z c Hu; cbn [length iterR app lenN last_of].
-  - rewrite N.add_0_r. reflexivity.
-  - exists (mkSt (i + 1) (Some x) (u ++ z) c). split.
-    + exists x, (u ++ z). cbn. repeat split; auto. apply Hu. left. reflexivity.
-    + replace (i + N.succ (lenN u)) with (i + 1 + lenN u) by lia. apply IH. intros y Hy. apply Hu. right. exact Hy.
-Qed.
 
 (* the state every derivation of the simple pattern reaches on {name}post *)
 Definition inv_final (i : N) (name post : str) : mst :=
@@ -230,21 +160,6 @@ Proof.
     try discriminate.
 Qed.
 
-Lemma run_next (P Q : char -> bool) stop : P stop = false -> Q stop = false -> (forall x, P x = true -> Q x = false) ->
-  forall name u y rest' post, (forall x, In x name -> P x = true) -> (forall x, In x u -> P x = true) -> Q y = true ->
-  name ++ stop :: post = u ++ y :: rest' -> False.
-Proof.
-  intros Hp Hq Hpq. induction name as [|a name IH]; intros u y rest' post Hn Hu Hy E.
-  - destruct u as [|b u]; cbn in E; inversion E; subst.
-    + congruence.
-    + rewrite Hu in Hp by (left; reflexivity). discriminate.
-  - destruct u as [|b u]; cbn in E; inversion E; subst.
-    + rewrite (Hpq y) in Hy; [discriminate|]. apply Hn. left. reflexivity.
-    + eapply (IH u y rest' post); eauto.
-      * intros x Hx. apply Hn. right. exact Hx.
-      * intros x Hx. apply Hu. right. exact Hx.
-Qed.
-
 Lemma complex_no_match i p name post : name_ok name ->
   match_at re_macros_render_0 i p (123 :: name ++ 125 :: post) = None.
 Proof.
@@ -285,16 +200,6 @@ Proof.
   repeat match goal with H : _ && _ = true |- _ => apply andb_prop in H as [? H] end.
   repeat match goal with H : negb _ = true |- _ => apply negb_true_iff in H end.
   apply (macro_first r x Hr) in E as [->| ->]; congruence.
-Qed.
-
-Lemma search_from_hole r : nullable (re_ast r) = false -> forall pre i p x rest,
-  (forall y, In y pre -> first (re_ast r) y = false) ->
-  match_at r (i + lenN pre) (last_of p pre) (x :: rest) = None ->
-  (forall y, In y rest -> first (re_ast r) y = false) ->
-  search_from r i p (pre ++ x :: rest) = None.
-Proof.
-  intros Hn pre i p x rest Hpre Hm Hrest. rewrite (search_from_skip r Hn pre i p (x :: rest) Hpre).
-  cbn [search_from]. rewrite Hm. apply search_from_none; assumption.
 Qed.
 
 (* a simple invocation with a backslash before it *)
